@@ -477,6 +477,28 @@ def fam_scalars() -> Iterator[dict]:
                        "outs": {"out": 3, "out_b": 4}}
 
 
+def fam_creation_then_math() -> Iterator[dict]:
+    """a math function / cast-sensitive consumer applied DIRECTLY to the result of an array
+    creation routine (eye, full, zeros, ones, arange) of every dtype spelling the harness
+    uses: the created node's dtype must be a dtype the consumer can work with"""
+    makers = [("eye", {"op": "eye", "n": 2, "m": 3, "k": 0, "dtype": "f8"}),
+              ("eye4", {"op": "eye", "n": 2, "m": 3, "k": 1, "dtype": "f4"}),
+              ("full", {"op": "full", "shape": [2, 3], "fill": {"py": "float", "v": "2.5"},
+                        "dtype": "f8"}),
+              ("zeros", {"op": "zeros", "shape": [2, 3], "dtype": "f8"}),
+              ("ones", {"op": "ones", "shape": [2, 3], "dtype": "f4"})]
+    x = inp("x", (2, 3))
+    for mname, mk in makers:
+        for fn in ("exp", "sin", "sqrt", "abs"):
+            yield {"id": f"creation/{mname}/{fn}", "inputs": [x],
+                   "calls": [mk, {"op": fn, "a": 2}, {"op": "add", "a": 3, "b": 1}],
+                   "outs": {"out": 4}}
+        yield {"id": f"creation/{mname}/pad-exp", "inputs": [x],
+               "calls": [mk, {"op": "pad", "a": 2, "width": [[1, 0], [0, 1]], "cval": 0},
+                         {"op": "exp", "a": 3}],
+               "outs": {"out": 4}}
+
+
 def fam_logical_nonbool() -> Iterator[dict]:
     """logical_and / logical_or / logical_not on NON-boolean operands (integer flags, floats
     incl. -0.0 and a negative number, mixed with booleans): truth is `!= 0`, not a bit
